@@ -84,6 +84,7 @@ let run_callers (self : bytes) (toks : string list) : string =
         let txt = String.concat "," (List.map (fun (sd, k) -> hex_of_bytes sd ^ "@" ^ show_key k) evs) in
         go reg' rest (("ev[" ^ txt ^ "]") :: acc)
       end else go (caller_release self mixed reg s c m sid) rest ("ok" :: acc)
+    | "Z" :: _ :: _ :: _ :: _ :: _ :: rest -> go reg rest ("ev[]" :: acc)   (* exclusivity == nil: no effect *)
     | "x" :: k :: p :: sd :: rest ->
       let k = key_of_tok k in
       let (reg', r) = reg_step reg (OClaim (k, { o_proto = bytes_of_hex p; o_sid = bytes_of_hex sd; o_key = k })) in
